@@ -28,8 +28,15 @@ func pathsBetween(n *netsim.Net, src, dst int, all bool) []combinator.Path {
 	return combinator.Combine(n.T.ASes[src].IA, n.T.ASes[dst].IA, ups, n.Core, downs, all)
 }
 
+// srcHostV6 makes the sending hosts IPv6 hosts (checks that vary the address family of the source set it per case; each
+// check runs in its own process).
+var srcHostV6 bool
+
 func hostOf(as int, which string) rtr.Host {
 	if which == "src" {
+		if srcHostV6 {
+			return rtr.V6(fmt.Sprintf("fd00:%x::10", as+1))
+		}
 		return rtr.V4(fmt.Sprintf("10.%d.1.10", as+1))
 	}
 	return rtr.V4(fmt.Sprintf("10.%d.2.20", as+1))
